@@ -399,19 +399,24 @@ def r8_register_liveness(ctx, rule="C15.R8"):
             rd, wr = table[e.instr]
             return rd - {"a"}, {r: "set" for r in wr}
         if e.kind == "EXPR":
-            cl = EXPR_CLOBBERS if e.callee.name not in exc else {"a"}
+            cl = EXPR_CLOBBERS if e.callee.name not in exc and not common.evaluates_for_counter(prog, T, cur_fn[0], e) else {"a"}
             return set(), {r: "clobbered" for r in cl}
         if e.kind in ("BLOCK", "STMT"):
             return set(), ({} if depth_holder[0] > 0 else {r: "clobbered" for r in ALL_REGS})
         if e.kind == "gen":
+            if e.callee.name.startswith("generate_store") and common.evaluates_for_counter(prog, T, cur_fn[0], e):
+                return {"a"} - {"a"}, {}      # a store into the plain counter variable evaluates nothing
             eff = dict(summary(e.callee))
             return set(entry_reads.get(e.callee.id, ())), eff
         return set(), {}
+
+    cur_fn = [None]
 
     def flow(f, on_read=None, on_dead=None):
         """may-dataflow over the emitted code of one emission path: fall-through and jumps to the
         labels of the same path.  Returns the merged exit state {reg: set of statuses}."""
         exit_state = {}
+        cur_fn[0] = f
         for seq in emit.linear_paths(f.body, T.evs(f)):
             seq = [e for e in seq if e.kind != "mark"]
             labels_at = {}
@@ -437,6 +442,7 @@ def r8_register_liveness(ctx, rule="C15.R8"):
                     continue
                 st = states[i]
                 e = seq[i]
+                cur_fn[0] = f
                 reads, effect = transfer(e, [depth[i]])
                 for r in reads:
                     if r not in st:
